@@ -31,6 +31,8 @@ def show(v) -> str:
         return f"td {v // US}"
     if v is None:
         return "none"
+    if isinstance(v, tuple) and len(v) == 2:
+        return f"pair ({show(v[0])}) ({show(v[1])})"
     return f"?{type(v).__name__}"
 
 
@@ -163,6 +165,24 @@ def leaf_cases(rng: random.Random, name: str, n: int):
                 out.append((f"leaf after {arg(tk)} {arg(ns.end_tick)}", call(SpecialEvent.tick_is_after_event, ns, tk)))
             else:
                 out.append((f"leaf during {arg(tk)} {arg(T)} b:{int(ns.tick_is_after_event(tk))}", call(SpecialEvent.tick_is_during_event, ns, tk)))
+        elif name == "between":
+            a, b = (rng.choice([0, 1, rng.randint(0, 5000), rng.randint(0, 2**54), -rng.randint(1, 50)]) for _ in range(2))
+            out.append((f"leaf between {arg(a)} {arg(b)}", call(tick.between, a, b)))
+        elif name == "timeadd":
+            from chartparse import time as cptime
+            ts = timedelta(microseconds=rng.choice([0, rng.randint(0, 10**9), rng.randint(0, 10**13)]))
+            other = rng.choice([0.0, 0.5, 1e-6, 5e-7, 1.5e-6, 2.5e-6, rng.uniform(0, 1e-5), rng.uniform(0, 10), rng.uniform(0, 1e6), rng.randint(0, 10**9) / 1e6,
+                                (rng.randint(0, 10**7) * 2 + 1) / 2e6, timedelta(microseconds=rng.randint(0, 10**9))])
+            out.append((f"leaf timeadd {arg(ts)} {arg(other)}", call(cptime.add, ts, other)))
+        elif name == "tsat":
+            from .props import C01
+            res, tempo = C01.rand_map(rng, rng.choice([1, 2, 4, 7]))
+            be = C01.build_bpm_events(res, tempo)
+            tk = rng.choice([t for t, _ in tempo] + [max(0, t - 1) for t, _ in tempo] + [rng.randint(0, tempo[-1][0] + 500), rng.randint(0, 10**6), -1, -7])
+            h = rng.randint(0, len(tempo) + 1)
+            seqs = ("l:" + ";".join(str(e.tick) for e in be), "lf:" + ";".join(arg(float(e.bpm))[2:] for e in be),
+                    "lt:" + ";".join(str(e.timestamp // US) for e in be))
+            out.append((f"leaf tsat {arg(res)} {arg(tk)} {arg(h)} " + " ".join(seqs), call(lambda: be.timestamp_at_tick(tk, start_iteration_index=h))))
         elif name == "anchor":
             us = rng.choice([0, 1, rng.randint(0, 10**9), rng.randint(2**53, 2**56), rng.randint(10**16, 8 * 10**19), 8670214808394963])
 
@@ -201,8 +221,12 @@ def rand_expr(rng, names, depth):
         return f"round({a})", ["round"] + ta
     if r < 0.88:
         return f"round({a}, 3)", ["roundN", "3"] + ta
-    if r < 0.94:
+    if r < 0.92:
         return f"abs({a})", ["abs"] + ta
+    if r < 0.95:
+        return f"tdsec(abs({a}))", ["tdsec", "abs"] + ta
+    if r < 0.97:
+        return f"isfloat({a})", ["isfloat"] + ta
     return f"Seconds({a})", ["cast"] + ta
 
 
@@ -216,7 +240,10 @@ def expr_cases(rng: random.Random, n: int):
             b, tb = rand_expr(rng, list(env), 2)
             src, toks = f"({src} {sym} {b})", ["cmp", op] + toks + tb
         try:
-            want = show(eval(src, {"Seconds": lambda v: v, "__builtins__": {"round": round, "abs": abs}}, dict(env)))  # noqa: S307  CPython is the reference here
+            want = show(eval(src, {"Seconds": lambda v: v, "tdsec": lambda v: timedelta(seconds=v), "isfloat": lambda v: isinstance(v, float),
+                                   "__builtins__": {"round": round, "abs": abs}}, dict(env)))  # noqa: S307  CPython is the reference here
+        except TypeError:
+            continue  # e.g. arithmetic between a timedelta and a float: outside what the leaves do
         except ZeroDivisionError:
             want = "E internal:ZeroDivisionError"
         except OverflowError:
